@@ -328,7 +328,7 @@ def run_filter(kind, case):
             err = ('exc', '%s: %s' % (type(e).__name__, str(e)[:200]),
                    traceback.format_exc()[-1500:])
     obs.update(res=res, err=err, states=mon.states, verdict=mon.verdict,
-               degraded=mon.degraded)
+               degraded=mon.degraded, gm=gm, am=am)
     return obs
 
 
